@@ -68,8 +68,8 @@ def compare(base, other, rank=0):
     return None
 
 
-def script(r):
-    m = pipeline.gen_model(r, max_modes=r.choice([2, 3, 4]))
+def script(r, tiny=False):
+    m = pipeline.gen_model(r, max_modes=(r.choice([1, 2, 2]) if tiny else r.choice([2, 3, 4])))
     M = m.modes()
     s = pipeline.core_script(m, order=0, symm=r.choice(["default", "default", "ignore"]))
     s += ["dm %s" % pipeline.hx(r.choice([1.0, 4.0])), "fops"]
@@ -98,14 +98,16 @@ def correspondence(ctx):
     nscripts = 24 if thorough else 5
     configs = [(2, 1), (3, 4), (4, 1)] if not thorough else [(2, 1), (2, 4), (3, 1), (3, 4), (4, 2), (5, 1), (7, 2), (16, 1)]
     for k in range(nscripts):
-        s = script(r)
+        # every fifth script is a tiny model run on more ranks than it has parts / blocks (idle ranks in every step)
+        tiny = k % 5 == 1
+        s = script(r, tiny)
         base = pipeline.run_case(exe, s, "real", numeric=False, timeout=300)
         ctx.evaluations += 1
         if base.aborted():
             ctx.problem("sanitizer", "single-rank run aborted: %s" % base.sanitizer(), script=s, harness="pipe", variant="real",
                         log=base.err[-1500:], signature="c06-base-abort")
             continue
-        for (np, th) in configs:
+        for (np, th) in (configs if not tiny else [(6, 1), (9, 2) if thorough else (5, 2)]):
             seed = r.below(1 << 30)
             res = pipeline.run_case(exe, s, "real", numeric=False, timeout=240, np=np, threads=th)
             ctx.evaluations += 1
